@@ -172,6 +172,76 @@ RtpLayoutLaws(c) ==
   /\ (c.cc <= 15 => Byte0(c) % 16 = c.cc)
 
 ---------------------------------------------------------------------------
+(* ============================ NACK (pid, blp) packing (RFC 4585 6.2.1) == *)
+(* Model values 0..2^NackBits-1 are embedded around the real 16-bit wrap    *)
+(* with scale 1 (the bitmask speaks about exact +1 distances):             *)
+(*    Real(v) = (65536 - 2^(NackBits-1) + v) mod 65536                      *)
+(* so the model's midpoint is the real wrap point 65535 -> 0.               *)
+
+NackSpace == 0..(2^NackBits - 1)
+Real(v)   == (65536 - 2^(NackBits - 1) + v) % 65536
+
+\* a pair is [pid, bits] with bits a subset of 1..16; blp bit (i-1) <=> pid + i is lost
+BitsOf(pid, T) == {i \in 1..16 : ((pid + i) % 65536) \in T}
+BlpValue(bits) == SeqSum([i \in 1..16 |-> IF i \in bits THEN 2^(i - 1) ELSE 0])
+\* deviation used by the self-test: bit i written at position 16 - i
+BlpWire(bits)  == IF Dev("NackBlpReversed")
+                  THEN SeqSum([i \in 1..16 |-> IF i \in bits THEN 2^(16 - i) ELSE 0])
+                  ELSE BlpValue(bits)
+BitsFromBlp(v) == {i \in 1..16 : (v \div 2^(i - 1)) % 2 = 1}
+
+UnpackPair(p) == {p.pid} \cup {(p.pid + i) % 65536 : i \in p.bits}
+Unpack(ps)    == UNION {UnpackPair(ps[i]) : i \in 1..Len(ps)}
+
+\* The contract: Pack is ANY relation with Unpack(Pack(S)) = S. Two packers are checked against
+\* it: the numeric-order greedy one (what src/rtp.rs does) and a wrap-aware one (fewest pairs).
+RECURSIVE GreedyFrom(_, _)
+\* `order` is the sequence of real values still to cover, in the packer's order
+GreedyFrom(order, T) ==
+  IF order = <<>> THEN <<>>
+  ELSE LET pid  == Head(order)
+           bits == {i \in 1..16 : pid + i \in T /\ pid + i <= 65535}     \* numeric order: no wrap inside a pair
+           rest == SelectSeq(Tail(order), LAMBDA x : ~(x - pid \in bits))
+       IN <<[pid |-> pid, bits |-> bits]>> \o GreedyFrom(rest, T)
+
+RECURSIVE SortedSeq(_)
+SortedSeq(T) == IF T = {} THEN <<>>
+                ELSE LET m == CHOOSE x \in T : \A y \in T : x <= y IN <<m>> \o SortedSeq(T \ {m})
+GreedyPack(T) == GreedyFrom(SortedSeq(T), T)
+
+\* wrap-aware: order by model value (i.e. serial order across the wrap)
+RECURSIVE WrapFrom(_, _)
+WrapFrom(order, T) ==
+  IF order = <<>> THEN <<>>
+  ELSE LET pid  == Head(order)
+           bits == BitsOf(pid, T)
+           rest == SelectSeq(Tail(order), LAMBDA x : ~(((x - pid) + 65536) % 65536 \in bits))
+       IN <<[pid |-> pid, bits |-> bits]>> \o WrapFrom(rest, T)
+WrapPack(S) == WrapFrom([i \in 1..Cardinality(S) |-> Real(SortedSeq(S)[i])], {Real(v) : v \in S})
+
+NackLaw(S) ==
+  LET T == {Real(v) : v \in S}
+      g == GreedyPack(T)
+      w == WrapPack(S) IN
+  /\ Unpack(g) = T
+  /\ Unpack(w) = T
+  /\ Len(w) <= Len(g) /\ Len(g) <= Cardinality(S)
+  /\ \A i \in 1..Len(g) : BitsFromBlp(BlpValue(g[i].bits)) = g[i].bits
+  \* what a peer reading the transmitted word reconstructs (differs only under the deviation)
+  /\ UNION { {g[i].pid} \cup {(g[i].pid + b) % 65536 : b \in BitsFromBlp(BlpWire(g[i].bits))}
+             : i \in 1..Len(g) } = T
+
+\* every subset of the model space with 1..k elements (built constructively: SUBSET of a
+\* 64-element set cannot be enumerated)
+RECURSIVE KSets(_)
+KSets(k) == IF k = 0 THEN {{}} ELSE LET R == KSets(k - 1) IN R \cup {S \cup {x} : S \in R, x \in NackSpace}
+SmallSets == KSets(MaxNackSet) \ {{}}
+\* structured sets: runs across the wrap of every length that matters for a 16-bit mask
+Half == 2^(NackBits - 1)
+Runs == { {(Half - a + i) % (2 * Half) : i \in 0..(n - 1)} : a \in {0, 1, 8, 16, 17}, n \in {16, 17, 18, 33, 34} }
+NackCases == SmallSets \cup Runs \cup { NackSpace }
+
+---------------------------------------------------------------------------
 (* ============================ RTCP (RFC 3550 6, RFC 4585, REMB, TWCC) === *)
 (* A part is [t, n, a, cls]:                                               *)
 (*   SR / RR : n report blocks; a = pattern of packets_lost values, block  *)
@@ -201,6 +271,9 @@ SdesChunkLen(a) == Pad4(4 + SeqSum([i \in 1..Len(a) |-> 2 + a[i]]) + 1)
 ByeReasonLen(p) == IF p.a = <<>> THEN 0 ELSE 1 + Min(p.a[1], 255)
 TwccPayLen(p)   == 2 + p.a[1]
 
+NackSetOf(p)    == {p.a[i] : i \in 1..Len(p.a)}
+NackMinPairs(p) == IF p.a = <<>> THEN 0 ELSE Len(WrapPack(NackSetOf(p)))
+
 \* logical body length (after the 4-byte RTCP header), before alignment
 BodyLen(p) ==
   CASE p.t = "SR"   -> 24 + 24 * p.n
@@ -211,7 +284,7 @@ BodyLen(p) ==
     [] p.t = "FIR"  -> 8 + 8 * p.n
     [] p.t = "REMB" -> 16 + 4 * p.n
     [] p.t = "TWCC" -> 16 + TwccPayLen(p)
-    [] p.t = "NACK" -> 8          \* plus 4 per (pid, blp) pair: see NackLenRange
+    [] p.t = "NACK" -> 8 + 4 * NackMinPairs(p)   \* the contract leaves the number of pairs free: see RtcpLayout
 
 \* range classes: "in" must serialise and round-trip; "reject" has no wire form and must be
 \* refused; "canon" has no exact wire form, the stack may refuse it or send the canonical value
@@ -288,7 +361,9 @@ PartLen(p) == 4 + Pad4(BodyLen(Canon(p)))
 RtcpLayout(p) ==
   LET w == MarshalW(p) IN
   [ok |-> w.ok, pt |-> w.pt, count |-> w.count, words |-> w.words, pbit |-> w.pbit, pad |-> w.pad,
-   len |-> 4 + 4 * w.words, chunk |-> IF p.t = "SDES" THEN SdesChunkLen(p.a) ELSE 0]
+   len |-> 4 + 4 * w.words, chunk |-> IF p.t = "SDES" THEN SdesChunkLen(p.a) ELSE 0,
+   \* NACK: any number of pairs between the fewest possible and one per lost packet is conformant
+   wordsmax |-> IF p.t = "NACK" THEN 2 + Cardinality(NackSetOf(p)) ELSE w.words]
 
 Cycle4 == <<-TwoP23, -1, 0, TwoP23 - 1>>
 LostPatterns ==
@@ -306,7 +381,7 @@ ElListsLens ==
 RtcpParts ==
   { Part(t, n, a, cls) : t \in {"SR", "RR"}, n \in ReportCounts, a \in LostPatterns, cls \in {"lo", "hi"} }
   \cup
-  { Part("SDES", n, a, "mix") : n \in ReportCounts,
+  { Part("SDES", n, IF n = 0 THEN <<>> ELSE a, "mix") : n \in ReportCounts,     \* no chunk, no items
        a \in ElListsLens }
   \cup
   { Part("BYE", n, a, "mix") : n \in ReportCounts, a \in {<<>>} \cup {<<l>> : l \in TextLens \cup {2, 3}} }
@@ -390,76 +465,6 @@ ExtMapLaws ==
      /\ (cur.base # "parsed2" => \A i \in 1..Len(cur.map) : cur.map[i].id \in 1..14 /\ cur.map[i].len \in 1..16)
 \* one-byte data length when the block carries no interior padding (EXT: RFC 8285 allows padding)
 ExtMapDataLen(m) == Pad4(SeqSum([i \in 1..Len(m) |-> 1 + m[i].len]))
-
----------------------------------------------------------------------------
-(* ============================ NACK (pid, blp) packing (RFC 4585 6.2.1) == *)
-(* Model values 0..2^NackBits-1 are embedded around the real 16-bit wrap    *)
-(* with scale 1 (the bitmask speaks about exact +1 distances):             *)
-(*    Real(v) = (65536 - 2^(NackBits-1) + v) mod 65536                      *)
-(* so the model's midpoint is the real wrap point 65535 -> 0.               *)
-
-NackSpace == 0..(2^NackBits - 1)
-Real(v)   == (65536 - 2^(NackBits - 1) + v) % 65536
-
-\* a pair is [pid, bits] with bits a subset of 1..16; blp bit (i-1) <=> pid + i is lost
-BitsOf(pid, T) == {i \in 1..16 : ((pid + i) % 65536) \in T}
-BlpValue(bits) == SeqSum([i \in 1..16 |-> IF i \in bits THEN 2^(i - 1) ELSE 0])
-\* deviation used by the self-test: bit i written at position 16 - i
-BlpWire(bits)  == IF Dev("NackBlpReversed")
-                  THEN SeqSum([i \in 1..16 |-> IF i \in bits THEN 2^(16 - i) ELSE 0])
-                  ELSE BlpValue(bits)
-BitsFromBlp(v) == {i \in 1..16 : (v \div 2^(i - 1)) % 2 = 1}
-
-UnpackPair(p) == {p.pid} \cup {(p.pid + i) % 65536 : i \in p.bits}
-Unpack(ps)    == UNION {UnpackPair(ps[i]) : i \in 1..Len(ps)}
-
-\* The contract: Pack is ANY relation with Unpack(Pack(S)) = S. Two packers are checked against
-\* it: the numeric-order greedy one (what src/rtp.rs does) and a wrap-aware one (fewest pairs).
-RECURSIVE GreedyFrom(_, _)
-\* `order` is the sequence of real values still to cover, in the packer's order
-GreedyFrom(order, T) ==
-  IF order = <<>> THEN <<>>
-  ELSE LET pid  == Head(order)
-           bits == {i \in 1..16 : pid + i \in T /\ pid + i <= 65535}     \* numeric order: no wrap inside a pair
-           rest == SelectSeq(Tail(order), LAMBDA x : ~(x - pid \in bits))
-       IN <<[pid |-> pid, bits |-> bits]>> \o GreedyFrom(rest, T)
-
-RECURSIVE SortedSeq(_)
-SortedSeq(T) == IF T = {} THEN <<>>
-                ELSE LET m == CHOOSE x \in T : \A y \in T : x <= y IN <<m>> \o SortedSeq(T \ {m})
-GreedyPack(T) == GreedyFrom(SortedSeq(T), T)
-
-\* wrap-aware: order by model value (i.e. serial order across the wrap)
-RECURSIVE WrapFrom(_, _)
-WrapFrom(order, T) ==
-  IF order = <<>> THEN <<>>
-  ELSE LET pid  == Head(order)
-           bits == BitsOf(pid, T)
-           rest == SelectSeq(Tail(order), LAMBDA x : ~(((x - pid) + 65536) % 65536 \in bits))
-       IN <<[pid |-> pid, bits |-> bits]>> \o WrapFrom(rest, T)
-WrapPack(S) == WrapFrom([i \in 1..Cardinality(S) |-> Real(SortedSeq(S)[i])], {Real(v) : v \in S})
-
-NackLaw(S) ==
-  LET T == {Real(v) : v \in S}
-      g == GreedyPack(T)
-      w == WrapPack(S) IN
-  /\ Unpack(g) = T
-  /\ Unpack(w) = T
-  /\ Len(w) <= Len(g) /\ Len(g) <= Cardinality(S)
-  /\ \A i \in 1..Len(g) : BitsFromBlp(BlpValue(g[i].bits)) = g[i].bits
-  \* what a peer reading the transmitted word reconstructs (differs only under the deviation)
-  /\ UNION { {g[i].pid} \cup {(g[i].pid + b) % 65536 : b \in BitsFromBlp(BlpWire(g[i].bits))}
-             : i \in 1..Len(g) } = T
-
-\* every subset of the model space with 1..k elements (built constructively: SUBSET of a
-\* 64-element set cannot be enumerated)
-RECURSIVE KSets(_)
-KSets(k) == IF k = 0 THEN {{}} ELSE LET R == KSets(k - 1) IN R \cup {S \cup {x} : S \in R, x \in NackSpace}
-SmallSets == KSets(MaxNackSet) \ {{}}
-\* structured sets: runs across the wrap of every length that matters for a 16-bit mask
-Half == 2^(NackBits - 1)
-Runs == { {(Half - a + i) % (2 * Half) : i \in 0..(n - 1)} : a \in {0, 1, 8, 16, 17}, n \in {16, 17, 18, 33, 34} }
-NackCases == SmallSets \cup Runs \cup { NackSpace }
 
 ---------------------------------------------------------------------------
 (* ============================ RTX wrap / unwrap (RFC 4588) ============== *)
